@@ -11,8 +11,11 @@ import (
 	"testing"
 	"time"
 
+	"github.com/ipni/go-libipni/verifshim/vsched"
+
 	"verifharness/sched"
 	"verifharness/schedfx"
+	"verifharness/syncfx"
 	"verifharness/vp"
 )
 
@@ -183,6 +186,68 @@ func announceVsClose() *sched.Scenario {
 	}
 }
 
+// K6: two announcements of one publisher and Close, every block already in the
+// destination store (syncs make no block requests and can complete). The first
+// sync is held inside its block hook for ad 1 at an idle point, which the
+// scheduler passes only when nothing else can move: by then both
+// announcements are in, Close has been called, has cancelled the
+// announce-triggered syncs and is waiting for them. Syncs of one publisher are
+// serialised, so whatever handles the second announcement separately gets its
+// turn only after that: it is a pending announce-triggered sync at the moment
+// of cancellation and must be abandoned. Within one sync hooks run from the
+// newest ad to the oldest, so a hook call for ad 2 after the one for ad 1 can
+// only come from such a second sync. (If the second announcement is coalesced
+// into the first handling, ad 2 is reported before ad 1: legitimate.)
+func pendingAnnounceVsClose() *sched.Scenario {
+	name := "K6-held-sync+pending-announce-vs-close"
+	return &sched.Scenario{Name: name,
+		Setup: func(e *sched.Exec) ([]sched.Thread, func()) {
+			w := schedfx.New(e, schedfx.Options{Pubs: 1, ChainLen: 3, Announce: true, Prestore: true})
+			p, ch := w.Pubs[0], w.Chains[0]
+			logHook := w.HookGate
+			w.HookGate = func(h syncfx.HookCall) {
+				logHook(h)
+				if _, bi := w.Locate(h.Cid); bi == 1 {
+					vsched.PointIdle("hook of ad 1 held until nothing else can move")
+				}
+			}
+			return []sched.Thread{
+					{Name: "A", Fn: func() {
+						for h := 1; h <= 2; h++ {
+							e.Log("A call Announce[%d]", h)
+							err := w.Sub.Announce(context.Background(), ch.Cids[h], p.AddrInfo())
+							e.Log("A ret Announce[%d] err=%v", h, err)
+						}
+					}},
+					closeThread(e, w, "C1"),
+				}, func() {
+					e.Log("END latest=%d", w.Latest(0))
+					finish(e, w)()
+				}
+		},
+		Check: func(e *sched.Exec) []sched.Finding {
+			out := common(e, name, []string{"A", "C1"})
+			held, closeCalled, latest := false, false, ""
+			for _, l := range e.Obs() {
+				switch {
+				case l == "C1 call Close":
+					closeCalled = true
+				case strings.HasPrefix(l, "hook ") && strings.HasSuffix(l, "pub0 block[1]"):
+					held = true
+				case held && strings.HasPrefix(l, "hook ") && strings.HasSuffix(l, "pub0 block[2]"):
+					out = append(out, sched.Finding{Sig: name + ":pending-announce-sync-ran-after-cancellation", Msg: fmt.Sprintf("%q is observed after the first sync reported ad 1 (it was held there until Close had been called and nothing else could move): a second announce-triggered sync of the publisher ran although it was still pending when Close cancelled", l)})
+				case strings.HasPrefix(l, "END latest="):
+					latest = strings.TrimPrefix(l, "END ")
+				}
+			}
+			if f, ok := e.Data.(*final); ok {
+				e.Class = fmt.Sprintf("first-sync-held=%v close-called=%v %s events=%v", held, closeCalled, latest, f.events)
+			}
+			return out
+		},
+	}
+}
+
 // K3: listener registration and cancellation || Close
 func listenerVsClose() *sched.Scenario {
 	name := "K3-listener-vs-close"
@@ -275,7 +340,7 @@ func postClose(call string) *sched.Scenario {
 
 func TestCheck(t *testing.T) {
 	r := vp.New("C15", "model_checking",
-		"scenarios on the real subscriber built with the instrumentation overlay (gated in-memory publisher, chain of 2-3 signed ads): K1 explicit sync (queried head) || Close, with one and with two concurrent Close callers; K2 announce-triggered sync || Close; K3 listener registration and cancellation || Close; K5 each of 11 entry points called after Close has returned. All interleavings at the scheduling points (locks, atomics, channel operations, selects, spawns, requests, hook calls, observations) up to the preemption bound, so Close starts at every point of a sync. 'Blocks forever' is decided by quiescence with the caller not finished. states = distinct decision states; transitions = scheduling steps; traces = executions of the real code.",
+		"scenarios on the real subscriber built with the instrumentation overlay (gated in-memory publisher, chain of 2-3 signed ads): K1 explicit sync (queried head) || Close, with one and with two concurrent Close callers; K2 announce-triggered sync || Close; K6 two announcements of one publisher and Close with every block already local, the first sync held in its block hook until nothing else can move (a sync still pending when Close cancels must be abandoned); K3 listener registration and cancellation || Close; K5 each of 11 entry points called after Close has returned. All interleavings at the scheduling points (locks, atomics, channel operations, selects, spawns, requests, hook calls, observations) up to the preemption bound, so Close starts at every point of a sync. 'Blocks forever' is decided by quiescence with the caller not finished. states = distinct decision states; transitions = scheduling steps; traces = executions of the real code.",
 		"cooperative scheduling at synchronization operations; priority selects in source order; one publisher",
 		"goroutine leak = a goroutine of the bubble with a go-libipni frame after Close and cleanup",
 	)
@@ -288,7 +353,7 @@ func TestCheck(t *testing.T) {
 	if vp.Thorough() {
 		bound = 3
 	}
-	scs := []*sched.Scenario{explicitVsClose(1), explicitVsClose(2), announceVsClose(), listenerVsClose()}
+	scs := []*sched.Scenario{pendingAnnounceVsClose(), explicitVsClose(1), explicitVsClose(2), announceVsClose(), listenerVsClose()}
 	for _, c := range []string{"SyncAdChain", "SyncEntries", "SyncOneEntry", "SyncHAMTEntries", "Announce", "OnSyncFinished", "GetLatestSync", "SetLatestSync", "RemoveHandler", "HttpPeerStore", "Close"} {
 		scs = append(scs, postClose(c))
 	}
